@@ -175,6 +175,24 @@ Definition expand_scopes (ts : list test) : list (test * scope) :=
 
 End Runner.
 
+(* ---- @tag filtering (tester/metadata.go MatchTags, tester.go: a tagged test runs exactly when its tags
+   match the -t option; an untagged test always runs; a test that does not run is recorded as skipped) *)
+Definition tag := (N * bool)%type.                 (* name, inverse (`!name`) *)
+
+Definition tag_hit (cli : N) (v : tag) : bool :=
+  if N.eqb (fst v) cli then negb (snd v) else snd v.
+Definition match_tags (tags : list tag) (cli : list N) : bool :=
+  match tags with
+  | [] => false
+  | _ => match cli with
+         | [] => forallb (fun v => snd v) tags            (* no -t: only when every tag is inverted *)
+         | _ => existsb (fun c => existsb (tag_hit c) tags) cli
+         end
+  end.
+Definition tag_runs (tags : list tag) (cli : list N) : bool :=
+  match tags with [] => true | _ => match_tags tags cli end.
+
+
 (* ---- test bodies as straight-line steps *)
 Section Steps.
 Variable scope : Type.
@@ -224,3 +242,12 @@ Arguments count {scope logline}.
 Arguments expand_scopes {scope body}.
 Arguments Act {scope logline istate}.
 Arguments Assert {scope logline istate}.
+
+Section Tags.
+Variable scope body : Type.
+(* what the runner does with a tagged test under -t cli: the test, skipped when filtered out *)
+Definition untag (cli : list N) (tt : list tag * test scope body) : test scope body :=
+  let (tg, t) := tt in
+  {| t_name := t_name t; t_scopes := t_scopes t; t_skip := t_skip t || negb (tag_runs tg cli); t_body := t_body t |}.
+End Tags.
+Arguments untag {scope body}.
